@@ -149,8 +149,16 @@ impl Uplinks {
             write_queue,
             ..
         } = self;
-        if let Some((mut writer, mut buffer)) = writer.take() {
-            let action = write_to_buffer(event, &mut buffer)?;
+        if let Some((sender, mut buffer)) = writer.take() {
+            let action = match write_to_buffer(event, &mut buffer) {
+                Ok(action) => action,
+                Err(e) => {
+                    // The event is discarded: the writer stays with the remote.
+                    *writer = Some((sender, buffer));
+                    return Err(e);
+                }
+            };
+            let mut writer = sender;
             let lane_name = registry.name_for(lane_id).expect(UNREGISTERED_LANE);
             writer.update_lane(lane_name);
             Ok(Some(WriteTask::new(writer, buffer, action)))
